@@ -1,0 +1,91 @@
+// Copyright (c) The Thanos Community Authors.
+// Licensed under the Apache License 2.0.
+
+package model
+
+import (
+	"github.com/efficientgo/core/errors"
+	"github.com/prometheus/prometheus/model/labels"
+)
+
+// ErrSameLabelset is the error Prometheus reports when an operation yields a
+// vector in which two samples have the same label set.
+var ErrSameLabelset = errors.New("vector cannot contain metrics with the same labelset")
+
+// SeriesDeduplicator maps the series of an operator which can give several
+// input series the same label set (typically by dropping the metric name) to
+// output series with unique label sets, and fails when two of them collide.
+//
+// Prometheus evaluates most operations step by step and reports a collision
+// when two samples of one step have the same label set; series which have
+// samples at different steps are merged. Operations which it evaluates series
+// by series (functions over range vectors, unary minus) fail as soon as two
+// series with the same label set have any samples. The latter behavior is
+// selected with perQuery.
+type SeriesDeduplicator struct {
+	// outputs is the output series ID of each input series. It is nil if all
+	// label sets are distinct, in which case there is nothing to do.
+	outputs  []uint64
+	perQuery bool
+	// owner is the input series (plus one) which produced samples for an output.
+	owner []uint64
+	// seen is the last step at which an output got a sample.
+	seen []int64
+	step int64
+}
+
+// NewSeriesDeduplicator returns the deduplicator for the given series together
+// with the list of unique output series.
+func NewSeriesDeduplicator(series []labels.Labels, perQuery bool) (*SeriesDeduplicator, []labels.Labels) {
+	var (
+		buf     []byte
+		ids     = make(map[string]uint64, len(series))
+		outputs = make([]uint64, len(series))
+		unique  = make([]labels.Labels, 0, len(series))
+	)
+	for i, s := range series {
+		buf = s.Bytes(buf)
+		id, ok := ids[string(buf)]
+		if !ok {
+			id = uint64(len(unique))
+			ids[string(buf)] = id
+			unique = append(unique, s)
+		}
+		outputs[i] = id
+	}
+	if len(unique) == len(series) {
+		return &SeriesDeduplicator{}, series
+	}
+	return &SeriesDeduplicator{
+		outputs:  outputs,
+		perQuery: perQuery,
+		owner:    make([]uint64, len(unique)),
+		seen:     make([]int64, len(unique)),
+	}, unique
+}
+
+// Apply rewrites the sample IDs of one step vector to output series IDs. It
+// returns ErrSameLabelset if two samples collide.
+func (d *SeriesDeduplicator) Apply(sampleIDs []uint64) error {
+	if d == nil || d.outputs == nil {
+		return nil
+	}
+	d.step++
+	for i, id := range sampleIDs {
+		out := d.outputs[id]
+		if d.perQuery {
+			if d.owner[out] == 0 {
+				d.owner[out] = id + 1
+			} else if d.owner[out] != id+1 {
+				return ErrSameLabelset
+			}
+		} else {
+			if d.seen[out] == d.step {
+				return ErrSameLabelset
+			}
+			d.seen[out] = d.step
+		}
+		sampleIDs[i] = out
+	}
+	return nil
+}
